@@ -808,7 +808,9 @@ def getitem(I, t, key):
                     pass
                 if kv.rank != 1:
                     raise Unsupported("boolean mask index of rank != 1")
+                mask_src = k
                 (sel_t,) = where_rows(I, k)[:1]
+                sel_t.meta["sel"][0].mask_src = mask_src
                 k = sel_t
                 kv = k.val
             if kv.rank == 0:
@@ -951,6 +953,8 @@ def setitem(I, t, key, v):
             mask_at = lambda idx: m.at(idx[: m.rank])
             count = None
             sel = None
+            if isinstance(v, Tensor) and "gather" in v.meta and getattr(v.meta["gather"][1][0], "mask_src", None) is kt:
+                sel = v.meta["gather"][1][0]  # a[mask] = b[mask] with the SAME mask object
         elif "sel" in kt.meta and kt.meta["sel"][0].src_dim.same(a.shape[0]) and kt.meta["sel"][2] is None and z3.eq(
             zint(kt.meta["sel"][1]), zint(kt.meta["sel"][0].count)
         ):
